@@ -1,7 +1,7 @@
 (* generated: tie of one numeric kernel to the hand model *)
 From Coq Require Import ZArith List Bool String.
 Import ListNotations.
-From OSQ Require Import Num IR Construct DefaultTable Matrix Check ABA Merge McKay CNOTDec Constants ConstCheck Kernels KernelTactics.
+From OSQ Require Import Num IR Construct DefaultTable Matrix Check ABA Merge McKay CNOTDec Constants Kernels KernelTactics.
 
 Lemma mckay_decompose_ok : forall (T : Type) (N : Num T) (q : Z) (ax : axis3 T) (angle phase : T) (gi : ginfo T),
   gen_mckay_decompose N q ax angle phase gi = mckay_decompose N (BSR q ax angle phase) gi.
